@@ -213,7 +213,7 @@ func registerAll() {
 				faulty.Read, faulty.EndNote = "all", ""
 			}
 			regSpec(&Spec{
-				Name: "panic-" + f.name + "-" + when, Props: []string{"C07", "C08", "C11"},
+				Name: "panic-" + f.name + "-" + when, Props: []string{"C07", "C08", "C11", "C12"},
 				Conns: []ConnSpec{
 					faulty,
 					{Ops: []string{"search"}, Expect: 1, Name: "bystander", EndNote: "faulty-done"},
